@@ -108,6 +108,15 @@ def cases(tier, rng, ifaces):
         for h in (b'MANY ', b'NINE ', b'X ', b'ECHO:U8? '):
             out.append(run_case('echo', 'std', h + args + b'\n', 'RUN-argcount'))
             out.append(proc_case('echo', 64, h + args + b'\n', [5] * 10, 'PROC-argcount'))
+    # very long mnemonics and character data (headers, parameters), every length around powers of two
+    for ln in (11, 12, 13, 15, 16, 17, 31, 32, 33, 63, 64, 65, 127, 128, 129, 255, 256, 257, 1000):
+        name = (b'ABCDEFGHIJKLMNOPQRSTUVWXYZ' * 40)[:ln]
+        lower = name.lower()
+        for text in (name + b'\n', b'*' + name + b'\n', b'SYST:' + lower + b'\n', name + b':' + name + b'?\n', b'X ' + lower + b'\n',
+                     b'SET:STR ' + name + b'\n', b':' + lower + b';*' + lower + b'\n'):
+            out.append(run_case('echo', 'std', text, 'RUN-longmnemonic'))
+            out.append(proc_case('echo', 256, text, [7] * 10, 'PROC-longmnemonic'))
+            out.append(Case(f'PARSE echo - {hx(text)}', no_crash, {'kind': 'PARSE-longmnemonic'}))
     # messages longer than the buffer
     for N in (1, 2, 5, 8, 16):
         for ln in (N - 1, N, N + 1, 2 * N, 3 * N + 1):
